@@ -4,7 +4,7 @@ import copy
 import random
 
 from . import aegen, simfarm, world
-from .result import Result, h64
+from .result import Result, h64, keep_going
 
 _WORLD = []
 
@@ -99,7 +99,7 @@ def shard_loop(spec, pid, make_monitors, classify, opts):
     rng = random.Random(spec['seed'])
     w = get_world()
     n = 0
-    while res.elapsed() < spec['budget']:
+    while keep_going(res, spec):
         case = gen_case(rng, opts)
         monitors = make_monitors()
         profile = opts['profile'](rng) if callable(opts.get('profile')) else opts.get('profile')
